@@ -138,7 +138,6 @@ def run(chk, replay_case=None):
                 "phases = malformed stream); for every initial status (5) and phase pair (9) all 2^%(schedbits)d schedule prefixes "
                 "of the two racing deliveries. Non-trivial = at least two deliveries, or a fault, or a race; distinct by "
                 "(history, race)" % params(chk),
-        "exhaustive": True,
         "traces_validated_against_impl": len(cases) - len(mism),
         "input_distribution": data.get("dist"),
         "delivery_outcomes": errs,
